@@ -18,7 +18,9 @@ No contract can express "for all inputs the float32 rounding error is below X" w
 back ends; that part of the property is decided only on the design."""
 from __future__ import annotations
 
+import contextlib
 import math
+import io
 import os
 import types
 
@@ -372,6 +374,35 @@ def tolerance(ck):
                     if not (rel(float(got[0]), float(one[0])) <= 1e-5 and rel(float(got[1]), float(one[1])) <= 1e-5):
                         fails.append({"obligation": "%s/bounded.clamp[%s]" % (qn, dt), "clause": "an emergence angle below 1 deg gives the result of 1 deg",
                                       "input": {"beta_deg": b, "alt": 0.5, "E": 1.0, "zdet": zd, "dtype": dt}, "observed": {"at beta": [float(got[0]), float(got[1])], "at 1 deg": [float(one[0]), float(one[1])]}})
+    # the values of the stage a user calls: CphotAng.__call__ and EAS.__call__ on batches in which 1, 2 and 3 events are simulated must carry the
+    # model's values too (same tolerances), each at its event's position
+    import dask
+    from nuspacesim.config import NssConfig
+    from nuspacesim.simulation.eas_optical.eas import EAS
+    from refmodel import cphot_ref
+
+    pool = [(12.0, 2.0, 1.0), (5.0, 0.5, 10.0), (25.0, 6.0, 0.1)]
+    for m_ in (1, 2, 3):
+        ev = pool[:m_]
+        bb, aa, ee = (np.array([math.radians(e[0]) for e in ev]), np.array([e[1] for e in ev]), np.array([e[2] for e in ev]))
+        refs = [cphot_ref.shower(b, a, e) for b, a, e in zip(bb, aa, ee)]
+        n_cmp += m_
+        try:
+            with np.errstate(all="ignore"), dask.config.set(scheduler="synchronous"), contextlib.redirect_stdout(io.StringIO()):
+                d, a = kernel("float32", 525.0)(bb.copy(), aa.copy(), ee.copy(), np.zeros(m_), np.zeros(m_))
+                # the same events through the stage, with out-of-range events around them
+                eas = EAS(NssConfig())
+                full_alt = np.concatenate([[25.0], aa, [-1.0]])
+                pe, cth = eas(np.concatenate([[0.2], bb, [0.2]]), full_alt, np.concatenate([[1.0], ee, [1.0]]), np.zeros(m_ + 2), np.zeros(m_ + 2))
+            d, a, pe, cth = np.asarray(d, float), np.asarray(a, float), np.asarray(pe, float), np.asarray(cth, float)
+            opt = NssConfig().detector.optical
+            okc = d.shape == (m_,) and all(den_ok(float(x), r[0]) and ang_ok(float(y), r[1]) for x, y, r in zip(d, a, refs))
+            oks = pe.shape == (m_ + 2,) and pe[0] == 0 and pe[-1] == 0 and all(den_ok(float(x) / (opt.telescope_effective_area * opt.quantum_efficiency), r[0]) for x, r in zip(pe[1:-1], refs))
+            if not (okc and oks):
+                fails.append({"obligation": "%s/bounded.entry_points" % qn, "clause": "CphotAng.__call__ and EAS.__call__ return the model's density and angle (same tolerances) for every simulated event of a batch, also when only one event is simulated",
+                              "input": {"simulated events": m_, "beta_deg, alt, E": [list(e) for e in ev], "zdet": 525.0}, "observed": {"CphotAng.__call__ density": d.tolist() if d.shape else "0-d array", "model": [r[0] for r in refs], "EAS numPEs": pe.tolist() if pe.shape else "0-d array"}})
+        except Exception as ex:
+            fails.append({"obligation": "%s/bounded.entry_points" % qn, "clause": "CphotAng.__call__ and EAS.__call__ evaluate a batch in which %d event(s) are simulated" % m_, "input": {"simulated events": m_, "beta_deg, alt, E": [list(e) for e in ev]}, "observed": "raised %r" % ex})
     # at most three witnesses per obligation (largest deviation first); the counts are in the detail block
     by, kept = {}, []
     for f in fails:
